@@ -105,7 +105,7 @@ class BoundedContract(object):
                 hit = None
                 for f in known:
                     try:
-                        if eval(f["witness"], {"__builtins__": {}}, {"case": self.show(c), "why": why, "index": i}):
+                        if eval(f["witness"], {"__builtins__": {}}, {"case": self.show(c), "why": why, "index": i, "key": c}):
                             hit = f
                             break
                     except Exception:
